@@ -44,6 +44,10 @@ func vfC06Draw(t *rapid.T) (c *vfC06Case) {
 	// the target lies outside the (wildcard) key's domain: a wildcard that
 	// covers its own target is decided by the table check, not here
 	target := "dst.t-" + vfDrawDomain(t, "target")
+	if strings.HasSuffix(target, "."+base) {
+		// the drawn domain lies below the key's: move it away
+		target += ".tgt"
+	}
 	v4 := rapid.SampledFrom([]string{"10.1.2.3", "192.0.2.44", "0.0.0.0"}).Draw(t, "v4")
 	v6 := rapid.SampledFrom([]string{"2001:db8::44", "::1"}).Draw(t, "v6")
 	wild := rapid.Bool().Draw(t, "wildcard_key")
